@@ -73,6 +73,7 @@ type simInline struct {
 }
 
 type simHistOpts struct {
+	NearCollisions    bool // now and then a few entries from a tiny universe: the same body as certificate, as precertificate under issuer A, and under issuer B
 	StaleWriter       bool // sometimes a second server process with the same key is started and, after the first one has moved on, tries to sequence
 	CancelRounds      bool // the sequencing context of a round is sometimes cancelled before one of its operations
 	CreateRace        bool // the log is sometimes created by two concurrent CreateLog calls, and CreateLog is sometimes run again over the existing log
@@ -100,6 +101,7 @@ type simHistStats struct {
 	Evictions                                                                                               int
 	CreateRaces, CreatesOverExisting                                                                        int
 	StaleWriterRounds                                                                                       int
+	NearCollisionRounds                                                                                     int
 	ResubmittedFailed                                                                                       int
 	RateLimited                                                                                             int
 	PoolSize                                                                                                int
@@ -575,6 +577,12 @@ func (h *simHist) run(t *rapid.T) error {
 			}
 		} else {
 			entries = h.genEntries(t, n)
+		}
+		if h.opts.NearCollisions && h.opts.Universe == 0 && rapid.IntRange(0, 3).Draw(t, "nearCollisions") == 1 {
+			for k := rapid.IntRange(2, 4).Draw(t, "nNear"); k > 0; k-- {
+				entries = append(entries, simUniverseEntry(rapid.IntRange(0, 5).Draw(t, "nearID")))
+			}
+			h.st.NearCollisionRounds++
 		}
 		// very rarely a round of more than 11000 entries (limits on what one statement or one transaction of the cache can take)
 		if (h.opts.Dedup || h.opts.KillAfter) && rapid.IntRange(0, 59).Draw(t, "giantRound") == 33 {
